@@ -41,11 +41,15 @@ VTYPES = ["dense", "csr", "coo", "csc", "sympy"]
 DESIG = ["indices", "eigvec-dense", "eigvec-sparse"]
 
 
-def base_values(base, k, seed):
-    cfg = dict(BASES[base], k=k, support=[[1], [2]] if k == 1 else [[1, 0], [0, 1], [1, 1]], pattern="dense",
-               repr="dense", vset=0)
+def base_values(base, k, seed, scale=None):
+    sup = {1: [[1], [2]], 2: [[1, 0], [0, 1], [1, 1]], 3: [[1, 0, 0], [0, 1, 0], [0, 0, 1]]}[k]
+    cfg = dict(BASES[base], k=k, support=sup, pattern="dense", repr="dense", vset=0)
     cfg["E"] = [[e, 0] for e in BASES[base]["E"]]
-    return cfg, lattice.gen_values(cfg, seed)
+    values = lattice.gen_values(cfg, seed)
+    if scale is not None:
+        # only first-order terms: an input term whose entries are all below atol is dropped by design
+        values = {o: m * scale for o, m in values.items() if sum(o) == 1}
+    return cfg, values
 
 
 def cases(tier, seed):
@@ -66,6 +70,17 @@ def cases(tier, seed):
                         if dg == "eigvec-sparse" and vt == "sympy":
                             continue
                         out.append(dict(kind="format", base=b, k=k, fmt=fmt, vtype=vt, desig=dg, seed=seed))
+        # three first-order parameters (the list format files one perturbation per parameter)
+        for fmt in ("list", "dict-tuples", "dict-monomials", "scalar-series"):
+            for vt in ("dense", "csr"):
+                out.append(dict(kind="format", base=b, k=3, fmt=fmt, vtype=vt, desig="indices", seed=seed))
+        # perturbations of magnitude 2^-30: formats must still agree (relative comparison)
+        for fmt in ("list", "dict-tuples", "nested-blocks", "scalar-series"):
+            for vt in ("dense", "csr", "sympy"):
+                for dg in ("indices", "eigvec-dense"):
+                    if fmt == "nested-blocks" and dg != "indices":
+                        continue
+                    out.append(dict(kind="format", base=b, k=1, fmt=fmt, vtype=vt, desig=dg, seed=seed, tiny=True))
         for basis in ("perm", "rot-deg", "cayley", "cayley-sparse", "unimodular-RL"):
             for vt in ("dense", "csr", "sympy"):
                 out.append(dict(kind="eigenbasis", base=b, k=1, basis=basis, vtype=vt, seed=seed))
@@ -94,7 +109,10 @@ def conv_value(m, vt, N=None):
         m = np.array(m)
 
         def rat(x):
-            f = Fraction(float(x)).limit_denominator(10**9)
+            f = Fraction(float(x))
+            if f.denominator & (f.denominator - 1) == 0 and f.denominator > 2**20:
+                return sympy.Rational(f.numerator, f.denominator)  # exact power-of-two scaling
+            f = f.limit_denominator(10**9)
             return sympy.Rational(f.numerator, f.denominator)
 
         return sympy.Matrix(m.shape[0], m.shape[1], lambda i, j: rat(m[i, j].real) + sympy.I * rat(m[i, j].imag))
@@ -199,24 +217,29 @@ def run_format(case):
 
     k = case["k"]
     total = 3 if k == 1 else 2
-    cfg, values = base_values(case["base"], k, case["seed"])
+    tiny = 2.0**-30 if case.get("tiny") else None
+    cfg, values = base_values(case["base"], k, case["seed"], tiny)
     fmt, vt, dg = case["fmt"], case["vtype"], case["desig"]
     herm = cfg["hermitian"]
     N = sum(cfg["sizes"])
     z = (0,) * k
     if fmt == "list":
         # a list means one first-order term per parameter
-        if k == 1:
-            values = {(1,): values[(1,)]}
-        else:
-            values = {(1, 0): values[(1, 0)], (0, 1): values[(0, 1)]}
-    can = canonical(cfg, values, total)
+        values = {o: m for o, m in values.items() if sum(o) == 1}
+    if tiny:
+        # reference: the O(1) problem, rescaled order by order (exact: the scale is a power of two)
+        _, v1 = base_values(case["base"], k, case["seed"])
+        v1 = {o: m for o, m in v1.items() if sum(o) == 1}
+        can = canonical(cfg, v1, total)
+        can = {name: {n: m.scale(tiny ** sum(n)) for n, m in d.items()} for name, d in can.items()}
+    else:
+        can = canonical(cfg, values, total)
     h0 = np.diag(np.array(BASES[case["base"]]["E"], dtype=float))
     cv = lambda m: conv_value(m, vt)  # noqa: E731
     kwargs = dict(hermitian=herm)
     strip = None
     exact = vt == "sympy"
-    syms = sympy.symbols("x y", real=True)[:k]
+    syms = sympy.symbols("x y z", real=True)[:k]
     if fmt == "list":
         Hin = [cv(h0)] + [cv(values[o]) for o in sorted(values, reverse=True)]
     elif fmt == "dict-tuples":
@@ -276,7 +299,10 @@ def run_format(case):
     outs = block_diagonalize(Hin, **kwargs)
     got = collect(outs, cfg, k, total, exact, strip)
     V = []
-    compare(got, can, exact, f"format {fmt}/{vt}/{dg}", V)
+    if tiny:
+        got = {name: {n: m.scale((1 / tiny) ** sum(n)) for n, m in d.items()} for name, d in got.items()}
+        can = {name: {n: m.scale((1 / tiny) ** sum(n)) for n, m in d.items()} for name, d in can.items()}
+    compare(got, can, exact, f"format {fmt}/{vt}/{dg}" + ("/tiny" if tiny else ""), V)
     return V, nontrivial_of(can)
 
 
